@@ -128,7 +128,7 @@ class C09(PipelineProp):
         yield from super().generate(rng, tier)
 
     def run_impl(self, case):
-        obs = P.run_pipeline({**case, "twice": True})
+        obs = P.run_pipeline({**case, "twice": True, "history": self.history_of(case)})
         if "cli" not in case or "err" in obs:
             return obs
         import re as _re
